@@ -596,6 +596,31 @@ macro_rules! impl_rem_assign_scalar {
     }
 }
 
+macro_rules! impl_rem_assign_signed_scalar {
+    ($scalar:ty, $to_unsigned:ident) => {
+        forward_val_assign_scalar!(impl RemAssign for BigUint, $scalar, rem_assign);
+        impl RemAssign<&BigUint> for $scalar {
+            #[inline]
+            fn rem_assign(&mut self, other: &BigUint) {
+                // Reduce the magnitude: `other` may equal the magnitude of `MIN`, which does
+                // not fit in the signed type itself.
+                *self = match other.$to_unsigned() {
+                    None => *self,
+                    Some(0) => panic!("attempt to divide by zero"),
+                    Some(v) => {
+                        let r = self.unsigned_abs() % v;
+                        if *self < 0 {
+                            (r as $scalar).wrapping_neg()
+                        } else {
+                            r as $scalar
+                        }
+                    }
+                };
+            }
+        }
+    }
+}
+
 // we can scalar %= BigUint for any scalar, including signed types
 impl_rem_assign_scalar!(u128, to_u128);
 impl_rem_assign_scalar!(usize, to_usize);
@@ -603,12 +628,12 @@ impl_rem_assign_scalar!(u64, to_u64);
 impl_rem_assign_scalar!(u32, to_u32);
 impl_rem_assign_scalar!(u16, to_u16);
 impl_rem_assign_scalar!(u8, to_u8);
-impl_rem_assign_scalar!(i128, to_i128);
-impl_rem_assign_scalar!(isize, to_isize);
-impl_rem_assign_scalar!(i64, to_i64);
-impl_rem_assign_scalar!(i32, to_i32);
-impl_rem_assign_scalar!(i16, to_i16);
-impl_rem_assign_scalar!(i8, to_i8);
+impl_rem_assign_signed_scalar!(i128, to_u128);
+impl_rem_assign_signed_scalar!(isize, to_usize);
+impl_rem_assign_signed_scalar!(i64, to_u64);
+impl_rem_assign_signed_scalar!(i32, to_u32);
+impl_rem_assign_signed_scalar!(i16, to_u16);
+impl_rem_assign_signed_scalar!(i8, to_u8);
 
 impl Rem<u64> for BigUint {
     type Output = BigUint;
